@@ -516,9 +516,20 @@ def execute(trace, env=None):
     fobs, fins, fouts, fsol, _ = pre
     want = fobs.normal()
     stats['fresh_compared'] += 1
+    idx0 = Index(world)
+
+    def name_ok(key):
+        # names whose target holds cells that only one of the models loaded
+        # (satellite books pulled in lazily) are not observed
+        t = world['names'][int(key[1:])]['t']
+        occ = [idx0.occupant(p) for p in rect_cells(t)]
+        return all(o is None or o in present for o in occ)
+
     for key in sorted(want):
         if present is not None and key[0] == 'c' and \
                 int(key[1:]) not in present:
+            continue
+        if present is not None and key[0] == 'n' and not name_ok(key):
             continue
         if got[key] != want[key]:
             fail('C07.fresh', '%s = %s after the history but %s on a fresh '
@@ -540,6 +551,8 @@ def execute(trace, env=None):
         for key in sorted(got):
             if present is not None and key[0] == 'c' and \
                     int(key[1:]) not in present:
+                continue
+            if present is not None and key[0] == 'n' and not name_ok(key):
                 continue
             if got[key] != MISSING and got[key] != fulln[key]:
                 fail('C07.outputs', '%s = %s with outputs=%s but %s without '
